@@ -580,6 +580,36 @@ func TestC20(t *testing.T) {
 			run.Sample(cs)
 		}
 	}
+	for i := 0; i < run.Pick(8, 400); i++ {
+		id := fmt.Sprintf("blackhole/%d", i)
+		if !run.Mine(i) || !run.Want(id) {
+			continue
+		}
+		run.Journal(id, "")
+		var res []*c01Result
+		err := Bubble(t, func() { res = runC20Blackhole(run, run.Seed()*43+int64(i), i%4) })
+		if err != nil {
+			res = append(res, &c01Result{"C20/bubble", err.Error()})
+		}
+		run.Eval(1)
+		for _, r := range res {
+			run.Violation(id, r.Key, r.What, map[string]any{"accusations_before": i % 4})
+		}
+	}
+	for i := 0; i < run.Pick(4, 60); i++ {
+		id := fmt.Sprintf("stalled-peer/%d", i)
+		if !run.Mine(i) || !run.Want(id) {
+			continue
+		}
+		run.Journal(id, "")
+		run.Eval(1)
+		for _, r := range runC20StalledPeer(run, i) {
+			run.Violation(id, r.Key, r.What, nil)
+		}
+	}
+	if !run.Replaying() {
+		run.Require("blackhole|health=0", "real-stalled-peer|Leave(300ms)")
+	}
 	nr := run.Pick(32, 4000)
 	for i := 0; i < nr; i++ {
 		if !run.Mine(i) {
